@@ -545,8 +545,11 @@ func c16aRandomCfg(rng *rand.Rand) c16aOp {
 			k = 8 - np
 		}
 		repl := k
-		if rng.Intn(3) == 0 {
+		switch x := rng.Intn(12); {
+		case x < 4:
 			repl++ // one replica is missing
+		case x == 4 && k >= 3:
+			repl-- // scaled down, one pod not yet removed
 		}
 		if even {
 			if repl <= 2 {
